@@ -133,7 +133,7 @@ _chain("C09", ["jailed_not_in_target", "jailed_excluded_after_end", "unjail_iff"
 PROPS["C20"] = {
     "lean_modules": ["Posmint.Props.C20"], "namespaces": ["Posmint.Props.C20"],
     "required_theorems": ["Posmint.Props.C20." + t for t in ("uvarint_roundtrip", "varint_roundtrip", "lenPrefixed_roundtrip", "intText_roundtrip",
-                          "coin_roundtrip", "coins_roundtrip", "powerKey_roundtrip", "powerKey_order", "formatCivil_order", "inclusiveEnd_spec", "hex_roundtrip")],
+                          "coin_roundtrip", "coins_roundtrip", "powerKey_roundtrip", "powerKey_order", "formatCivil_order", "inclusiveEnd_spec", "hex_roundtrip", "coinText_roundtrip", "parseCoinText_sound", "parseCoinText_spaces")],
     "t1": [{"family": "codec", "model": "codec", "stateless": True, "quick_n": 60000, "thorough_n": 10000000, "corpus": "codec"}],
     "rule": "values and byte strings from boundary-biased generators: uvarints/varints around powers of two and 2^64, Int text of up to 255 bits "
             "and malformed text, Coin/Coins with empty and maximal denominations and truncated encodings, MsgSend with empty / 20-byte / odd-length "
